@@ -32,6 +32,18 @@ V2 = ["2.18.0", "2.20.1", "2.20.2", "2.20.3", "2.21.0", "2.21.1", "2.21.2"]
 ALL = V1 + V2
 # one representative per code-path class (DESIGN.md §7)
 REPR = ["1.6.0", "1.7.1", "1.9.1", "1.11.1", "1.15.0", "1.17.0", "1.18.0o", "2.18.0", "2.20.1", "2.20.3", "2.21.2"]
+# the quick tier of the expensive checks (a quick command has 900 s on a machine that may be busy): one schema per storage
+# shape - plain tables with rowid ids (1.6.0), List-based views with INSTEAD OF triggers (1.9.1), placeholder trigger
+# (1.17.0), newest 1.x (1.18.0o); first 2.x (2.18.0), ChangeLog as a view (2.20.3), newest 2.x (2.21.2) - plus `extra`
+# further ones that rotate with the seed.  The thorough tier runs all 18.
+QUICK = ["1.6.0", "1.9.1", "1.17.0", "1.18.0o", "2.18.0", "2.20.3", "2.21.2"]
+
+
+def quick_schemas(seed, extra=1):
+    import random as _r
+    rest = [s for s in ALL if s not in QUICK]
+    _r.Random(seed * 101 + 7).shuffle(rest)
+    return QUICK + sorted(rest[:extra], key=ALL.index)
 
 
 def family(schema):
